@@ -24,7 +24,7 @@ CHECKS = {
   text="Part (a): exhaustive byte-level enumeration against the three frame-decode entry points (all strings <= 2 bytes, 60 seed frames x every truncation / single-byte mutation / length-field rewrite incl. cap, cap+1, 2^31, 2^32-1 with a 1 MiB allocation bound, all 65536 PType x SType pairs, all data frames with any 1-2 byte body), oracle = E37 accept rule + E5 body verdict + identical error to every holder on every call. Part (b): on a real Selected connection every segmentation (<= 2 cuts, all-singletons) and every in-frame / between-frame delay around T8 of short frame streams; hostile length fields.",
   note="Mutations beyond two bytes are not explored; the concurrent first-call of the lazy decode is covered by C12's race pass. Trusted: ref/e37, ref/e5, synctest, sim."),
  "C05": dict(engine="E3-sched + explicit-state graph search", cat="model_checking", tech="explicit-state BFS over the real supervisor's step/commit functions (state = replayed action history, canonical-key merging) + " + E3,
-  text="Layer 1: breadth-first closure (to the stated depth) of all transport-producible action sequences on the REAL supervisor (commits, async injects, requestClose, step, commits landing between step's load and store), oracle after every action = reference in which a state change takes effect exactly when its cause does. Layer 3: every schedule with <= B departures of system scenarios (peer connect/select/deselect/drop vs Close/Open vs T7 clock) on the real instrumented hsmsss connection, invariants evaluated at every scheduling point.",
+  text="Layer 1: breadth-first closure (to the stated depth) of all transport-producible action sequences on the REAL supervisor (commits, async injects, requestClose, step, commits landing between step's load and store), oracle after every action = reference in which a state change takes effect exactly when its cause does. Layer 3: every schedule with <= B departures of system scenarios (peer connect/select/deselect/drop vs Close/Open vs T7 clock) on the real instrumented hsmsss connection, invariants evaluated at every scheduling point; one scenario on a real passive secs1 connection (connect vs Close). After the bounded DFS every scenario is also run once per thread with that thread starved (scheduled only when nothing else can run).",
   note="Bounded: graph depth and departure bound are reported per run; schedules beyond the bound and scheduling points the instrumenter does not know are not explored. Known findings F5/F6/F7 (genuine defects, see known_findings.json) are reported as KNOWN-FINDING."),
  "C08": dict(engine="E2-bubble", cat="model_checking", tech=E2,
   text="Tree search: every history of peer frames of length <= D over a 16-symbol alphabet (all control requests/responses, orphan responses, data, malformed frames, second connect / reconnect) replayed on a fresh real hsmsss connection per history; after EVERY step the exact FIFO of frames the library wrote, State(), handler deliveries and connection liveness are compared with a reference E37 responder; plus depth-1 over every malformed (SType 0..255 x PType x body) frame; passive/active(after and during select) x equip/host x session-id validation.",
@@ -42,8 +42,8 @@ CHECKS.update({
   text="E2: full product (thorough; covering subset in quick) of roles x sends awaiting a reply {0,1,2} x a send blocked mid-write x queued fire-and-forget sends {0,1,3} x generation-ending event {peer close, reset, write timeout, Close+Open, linktest failure, T8 inside a frame, Separate.req} x refused re-dials x late reply for an old transaction x new sends, on a real hsmsss connection; every payload carries a token naming the generation that accepted it; oracle: generation 2's socket never carries a generation-1 token, every generation-1 waiter returns connection-closed / its own timeout promptly and never a reply, late replies never complete generation-2 sends. E3: every schedule with <= B departures of {sender pinned to generation 1, peer drop, reconnecting+selecting peer}.",
   note="HSMS-SS only (SECS-I generations are not covered). Bounded by the stated product and by the departure bound; exact timer ties outside E3's scenarios are not explored. Built on the instrumented tree so that a writer stalled mid-write (holding the write lock) does not wedge the bubble."),
  "C10": dict(engine="E2-bubble + E3-sched", cat="model_checking", tech=E2 + "; " + E3,
-  text="E2 tree search: every history of length <= D (quick 3, thorough 4) over {Open(background), Open(wait), Close, SendDataMessage, UpdateConfigOptions, dial answer accept/refuse/black-hole, peer connect/select/reject/close/stall, advance 100ms/3s}, each API call on its own goroutine, active and passive; after every step: no panic, each call within its documented virtual-time bound, Open-on-open = ErrAlreadyOpen without side effects; final phase per history: Close within the close timeout, idempotent re-Close, no dial/listen for 12 s, every socket and listener closed, no library goroutine, re-Open + select + round trip + Close works. E3: every schedule with <= B departures of {Close, Close, peer drop}, {Open, Close, Send}, {peer connect, Close}: no deadlock, documented return values, same leak checks.",
-  note="HSMS-SS only. Black-holed dials are bounded by the configured connect timeout (an unbounded OS dial is outside the model). State() after Close is C05's clause. Depth / departure bounds as stated."),
+  text="E2 tree search: every history of length <= D (quick 3, thorough 4) over {Open(background), Open(wait), Close, SendDataMessage, UpdateConfigOptions, dial answer accept/refuse/black-hole, peer connect/select/reject/close/stall, advance 100ms/3s}, each API call on its own goroutine, active and passive; after every step: no panic, each call within its documented virtual-time bound, Open-on-open = ErrAlreadyOpen without side effects; final phase per history: Close within the close timeout, idempotent re-Close, no dial/listen for 12 s, every socket and listener closed, no library goroutine, re-Open + select + round trip + Close works. The same tree search runs on a real SECS-I (secs1) connection, active+host and passive+equipment, with an independent E4 peer for the final round trip. E3: every schedule with <= B departures of {Close, Close, peer drop}, {Open, Close, Send}, {peer connect, Close}: no deadlock, documented return values, same leak checks.",
+  note="Black-holed dials are bounded by the configured connect timeout (an unbounded OS dial is outside the model); a SECS-I peer stall keeps a 64 KiB receive window (a zero-byte TCP window blocking a 1-byte write for ever is outside the model: SECS-I disables the core write timeout). The E3 overlaps are HSMS-SS only. State() after Close is C05's clause. Depth / departure bounds as stated."),
  "C11": dict(engine="E2-bubble + E1-enum", cat="model_checking", tech=E2 + " (fault enumeration); backoff step: " + E1,
   text="Exhaustive fault enumeration on the real hsmsss connection in virtual time: a canonical session (TCP up, select, data both ways, linktest) is cut after every byte of both stream directions by {peer close, reset, stall, mute}, on the first and on the re-established link, both roles, 3 backoff configurations, 2 timer sets and 0/1/2/5 refused dials or failed listens; special scenarios: select rejection, T7, cold start, double drop, Close mid-backoff. Oracle: reference predicts exactly when the link is given up and by which timer, every dial time per the documented backoff, Reconnecting/Reconnects, a working Selected session on the new link/listener, silence for 10*T5 after Close. The pure backoff step is checked over the full (initial, multiplier, T5, 0..12 failures) grid.",
   note="One canonical 64+64-byte session per role; HSMS-SS only; failed dials fail instantly; timers never tied (E3's job). Trusted: synctest, sim, ref/backoff."),
